@@ -9,13 +9,13 @@ TARGETS = ['Properties/C13.vo', 'Run/ObsC13.vo']
 THEOREMS = util.theorems('C13')
 RUN_MODULE = 'Run.ObsC13'
 SHARD_SIZE = 400
-RULE = ('(a) exhaustive single steps: every definition over ordered subsets of 2 object and 2 property names x every operation '
+RULE = ('(a) exhaustive single steps (both tiers): every definition over ordered subsets of 2 object and 2 property names x every operation '
         'instance over 3+3 names (argument lists up to length 2 incl. duplicates and unseen names, move indexes -3..3); '
         '(b) in-place union/intersection on sampled pairs of such definitions; (c) random multi-handle histories (quick 400 x <=25 '
         'steps, thorough 6000 x <=40) over 4+4 names. After each step every live handle is observed: triple, return value, '
         'exception class, d == Definition(*d). non-trivial = history with >=3 steps containing a remove/rename followed by a '
         're-add of the same name, or a single step that changes the name order; distinct by operation sequence')
-EXHAUSTIVE = {'quick': False, 'thorough': False}
+EXHAUSTIVE = {'quick': False, 'thorough': False}   # part (a) is exhaustive over its bounded space, (b)/(c) are sampled
 
 OBJS, PROPS = [0, 1], [3, 4]
 OBJS3, PROPS3 = [0, 1, 2], [3, 4, 5]
@@ -33,7 +33,7 @@ def cases(tier, seed):
     out = []
     tables = dm.all_tables(OBJS, PROPS)
     ops1 = dm.single_ops(0, OBJS3, PROPS3)
-    step = 1 if tier == 'thorough' else 3
+    step = 1          # every (definition, operation) pair, in both tiers
     k = 0
     for t in tables:
         start = dm.Op('DNew', *t)
